@@ -2037,6 +2037,12 @@ lp_feasibility_set_t* lp_polynomial_root_constraint_get_feasible_set(const lp_po
 
 }
 
+/** Order of the integers (the elements of a feasibility_set_int are kept sorted) */
+static
+int feasible_set_Zp_root_cmp(const void* a, const void* b) {
+  return lp_integer_cmp(lp_Z, (const lp_integer_t*) a, (const lp_integer_t*) b);
+}
+
 lp_feasibility_set_int_t* lp_polynomial_constraint_get_feasible_set_Zp(const lp_polynomial_t* A, lp_sign_condition_t sgn_condition, int negated, const lp_assignment_t* M) {
   const lp_polynomial_context_t *ctx = lp_polynomial_get_context(A);
   assert(ctx->K != lp_Z);
@@ -2064,6 +2070,10 @@ lp_feasibility_set_int_t* lp_polynomial_constraint_get_feasible_set_Zp(const lp_
   lp_feasibility_set_int_t *result = sgn_condition == LP_SGN_EQ_0 ? lp_feasibility_set_int_new_empty(K) : lp_feasibility_set_int_new_full(K);
 
   lp_upolynomial_roots_find_Zp(upoly, &result->elements, &result->size);
+  // the randomised root finder returns the roots in no particular order
+  if (result->size > 1) {
+    qsort(result->elements, result->size, sizeof(lp_integer_t), feasible_set_Zp_root_cmp);
+  }
 
 #ifndef NDEBUG
   {
